@@ -44,6 +44,14 @@ class Registry(object):
     def cls(self, key, fields, invariant=None):
         self.classes[key] = {'fields': dict(fields), 'invariant': invariant or []}
 
+    def finding_class(self, name, fn):
+        """fn(ex, st) -> z3 Bool: the failure class of a known finding on trace-level obligations ('py:<name>')"""
+        self.findings_classes[name] = fn
+
+    @property
+    def finding_classes(self):
+        return self.findings_classes
+
     def generator(self, name, fn):
         """fn(gen, rng[, ty]) -> JSON model of a random instance (used by pyvc.fuzz under /venv/bin/python)"""
         self.generators[name] = fn
